@@ -183,8 +183,7 @@ func xlsxMembers() []zipw.Member {
 
 func pptxMembers() []zipw.Member {
 	d := pptxw.Deck{Title: "Pptx Sample", Slides: []pptxw.Slide{
-		{Title: "Slide One", Paras: []pptxw.Para{{Text: "first slide body"}, {Text: "bullet a", Level: 1, Bullet: "char"}}, Notes: "notes one"},
-		{Title: "Slide Two", Table: [][]string{{"ph1", "ph2"}, {"pc1", "pc2"}}},
+		{Title: "Slide One", Paras: []pptxw.Para{{Text: "slide body"}, {Text: "bullet a", Level: 1, Bullet: "char"}}, Notes: "notes one", Table: [][]string{{"ph1", "ph2"}, {"pc1", "pc2"}}},
 	}}
 	return d.Members()
 }
